@@ -3,6 +3,7 @@ from outsourcer import Code
 from . import utils
 from .base import Expression
 from .constants import BREAK, POS, RESULT, STATUS
+from .ref import Ref
 
 
 class List(Expression):
@@ -10,8 +11,9 @@ class List(Expression):
 
     def __init__(self, expr, min_len=None, max_len=None):
         self.expr = expr
-        self.min_len = min_len
-        self.max_len = max_len
+        # A bound can be a name, as in `List(e, min_len=n)`. (Same as `e{n,}`.)
+        self.min_len = min_len = _unwrap_bound(min_len)
+        self.max_len = max_len = _unwrap_bound(max_len)
         _check_min_and_max_len(min_len, max_len)
 
     def __str__(self):
@@ -81,6 +83,10 @@ class List(Expression):
         with out.IF(condition):
             out += RESULT << staging
             out += STATUS << True
+
+
+def _unwrap_bound(bound):
+    return bound.name if isinstance(bound, Ref) else bound
 
 
 def _check_min_and_max_len(min_len, max_len):
